@@ -1653,10 +1653,6 @@ where
                 let mut first = true;
                 let mut stack_idx = self.open_elems.borrow().len() - 1;
                 loop {
-                    if stack_idx == 0 {
-                        return ProcessResult::Done;
-                    }
-
                     let html;
                     let eq;
                     {
@@ -1665,9 +1661,15 @@ where
                         html = *node_name.ns() == ns!(html);
                         eq = node_name.local_name().eq_ignore_ascii_case(&tag.name);
                     }
+                    // An HTML element reached while walking up (the root included) hands the
+                    // token to the rules of the current insertion mode.
                     if !first && html {
                         let mode = self.mode.get();
                         return self.step(mode, Token::Tag(tag));
+                    }
+
+                    if stack_idx == 0 {
+                        return ProcessResult::Done;
                     }
 
                     if eq {
